@@ -22,7 +22,7 @@ ASSUMPTIONS = ['str() of a Python value is the "string form" the statement means
 LEVEL_TEXT = ('Seeded sampling of (check, credentials, target) with an independent reference walk; the structure '
               'generator puts every JSON type at every path position, which is where the failure modes live.')
 LEVEL_NOTE = 'trusted: the reference walk (20 lines, from the statement); Python str() as string form'
-PLAN = {'quick': dict(shards=4, wall=60), 'thorough': dict(shards=16, wall=400)}
+PLAN = {'quick': dict(shards=4, wall=120), 'thorough': dict(shards=16, wall=400)}
 MIN = {'evaluations': 5000, 'allow_decisions': 150, 'deny_decisions': 1000, 'list_fanout_cases': 200, 'context_sequence_decisions': 500, 'overlapping_evaluations': 100}
 ANCHORS = ['oslo_policy._checks:GenericCheck.__call__', 'oslo_policy._checks:GenericCheck._find_in_dict',
            'oslo_policy.policy:Enforcer.enforce']
